@@ -59,8 +59,8 @@ def classify(data):
         with visa.time_guard(BUDGET):
             p = read_program(data)
         return ("ok", type(p).__name__)
-    except visa.HarnessTimeout:
-        return ("hang",)
+    except visa.HarnessTimeout as t:
+        return ("hang", (t.args[0] if t.args else "") or "?")
     except MemoryError as x:
         return ("exc", bucket_of_exception("escape", x), "MemoryError")
     except Exception as x:
@@ -196,7 +196,7 @@ def run_shard(shard, tier, seed):
             if expect and r[1] != expect:
                 part.fail("valid-%s-returned-as-%s" % (expect, r[1]), case, "a valid generated %s file was returned as %s" % (expect, r[1]))
         elif r[0] == "hang":
-            part.fail("no-termination:%s" % (origin.split("/")[-1] if kind != "random" else "random"), case, "read_program still running after %d s" % BUDGET)
+            part.fail("no-termination:%s" % r[1], case, "read_program still running after %d s (in %s; input derived from %s)" % (BUDGET, r[1], origin or "random bytes"))
         else:
             part.fail(r[1], case, r[2])
 
@@ -212,7 +212,7 @@ def replay(case):
     if r[0] == "exc":
         return (r[1], r[2])
     if r[0] == "hang":
-        return ("no-termination:%s" % (case.get("origin", "").split("/")[-1] if case.get("kind") != "random" else "random"), "read_program still running after %d s" % BUDGET)
+        return ("no-termination:%s" % r[1], "read_program still running after %d s (in %s)" % (BUDGET, r[1]))
     return None
 
 
